@@ -148,12 +148,14 @@ def parse(text: str):
 def extract_tuples(text: str, head: str):
     """All balanced <<"head", ...>> values printed anywhere in TLC output."""
     out = []
-    needle = '<<"%s"' % head
+    # TLC wraps long values over several lines and then writes `<< "head",`
+    pat = re.compile(r'<<\s*"%s"' % re.escape(head))
     pos = 0
     while True:
-        i = text.find(needle, pos)
-        if i < 0:
+        m = pat.search(text, pos)
+        if not m:
             break
+        i = m.start()
         depth = 0
         j = i
         in_str = False
